@@ -5,9 +5,6 @@ package xxh32
 func init() {
 	vfHarnesses["H_C13_oneshot"] = H_C13_oneshot
 	vfHarnesses["H_C13_split"] = H_C13_split
-	vfHarnesses["H_C13_step_write"] = H_C13_step_write
-	vfHarnesses["H_C13_step_sum"] = H_C13_step_sum
-	vfHarnesses["H_C13_base"] = H_C13_base
 	vfHarnesses["H_C13_confirm_long"] = H_C13_confirm_long
 }
 
@@ -44,88 +41,8 @@ func H_C13_split() {
 	vfReach("end")
 }
 
-// hC13State builds an arbitrary implementation state with the given number of
-// buffered bytes, together with the reference state related to it by R:
-//   ref.total = totalLen, ref.msize = bufused = totalLen mod 16,
-//   ref.mem[:msize] = buf[:bufused], ref.v = v if totalLen > 0 else the initial lanes.
-func hC13State(bufused int) (*XXHZero, *refXXHState) {
-	x := &XXHZero{}
-	ref := refXXHNew()
-	x.totalLen = vfU64("total")
-	vfAssume(x.totalLen%16 == uint64(bufused))
-	for k := 0; k < 4; k++ {
-		x.v[k] = vfU32("v")
-	}
-	if x.totalLen != 0 { // a fork, not an ite: keeps both sides' hash terms syntactically aligned
-		for k := 0; k < 4; k++ {
-			ref.v[k] = x.v[k]
-		}
-	}
-	x.bufused = bufused
-	// the whole carry buffer is arbitrary; only the first bufused bytes are meaningful
-	for i := 0; i < 16; i++ {
-		x.buf[i] = vfByte("buf")
-	}
-	ref.total = x.totalLen
-	ref.msize = bufused
-	for i := 0; i < bufused; i++ {
-		ref.mem[i] = x.buf[i]
-	}
-	return x, ref
-}
-
-// H_C13_step_write: one inductive step. From ANY state related by R, Write(p) with
-// len(p)=m leads to a state related by R again (so by induction every history of
-// writes of at most m bytes each, of any total length, keeps R).
-func H_C13_step_write() {
-	bufused := vfParam("bufused")
-	m := vfParam("m")
-	x, ref := hC13State(bufused)
-	p := vfBytes("p", m)
-	vfAssume(ref.total+uint64(m) >= ref.total) // no 64-bit wrap of the byte counter (2^64 bytes is out of scope)
-	_, err := x.Write(p)
-	ref.update(p)
-	vfAssert("write-no-error", err == nil)
-	vfAssert("R-total", x.totalLen == ref.total)
-	vfAssert("R-bufused", x.bufused == ref.msize)
-	nb := vfConc(x.bufused)
-	vfAssume(nb >= 0)
-	vfAssume(nb < 16)
-	vfAssert("R-buf", vfEqBytes(x.buf[:nb], ref.mem[:nb]))
-	nonzero := x.totalLen > 0
-	vfAssert("R-lanes", vfImplies(nonzero, vfAnd(vfAnd(x.v[0] == ref.v[0], x.v[1] == ref.v[1]), vfAnd(x.v[2] == ref.v[2], x.v[3] == ref.v[3]))))
-	vfReach("end")
-}
-
-// H_C13_step_sum: in ANY state related by R the digest equals the reference digest.
-func H_C13_step_sum() {
-	bufused := vfParam("bufused")
-	x, ref := hC13State(bufused)
-	got := x.Sum32()
-	want := ref.digest()
-	vfNote("got", int(got))
-	vfNote("total_lo", int(uint32(x.totalLen)))
-	vfNote("total_hi", int(x.totalLen>>32))
-	// known class D8: short-input formula chosen from the truncated 32-bit total
-	inD8 := vfAnd(x.totalLen >= 1<<32, uint32(x.totalLen) < 16)
-	vfAssertK("sum32-equals-reference-digest", got == want, "C13-D8-total-truncated-to-32-bits", inD8)
-	vfReach("end")
-}
-
-// H_C13_base: the zero value and a Reset state satisfy R with the fresh reference state.
-func H_C13_base() {
-	var z XXHZero
-	vfAssert("zero-total", z.totalLen == 0)
-	vfAssert("zero-bufused", z.bufused == 0)
-	x, _ := hC13State(vfParam("bufused"))
-	x.Reset()
-	vfAssert("reset-total", x.totalLen == 0)
-	vfAssert("reset-bufused", x.bufused == 0)
-	vfReach("end")
-}
-
-// H_C13_confirm_long (native only): confirms a step_sum counterexample through the
-// public API by really writing `total` bytes (zeros, then the tail bytes).
+// H_C13_confirm_long (native only): confirms a long-stream counterexample through the
+// public API by really writing `total` bytes (zeros).
 func H_C13_confirm_long() {
 	hi := vfParam("total_hi")
 	lo := vfParam("total_lo")
